@@ -21,6 +21,7 @@ package main
 import (
 	"bytes"
 	"crypto/sha256"
+	"errors"
 	"encoding/hex"
 	"fmt"
 	"image"
@@ -167,6 +168,10 @@ type workload struct {
 	Opts  *webp.EncoderOptions
 	Input []byte // decode / anim: the file
 	Sites []int  // sites this workload can reach
+	// animc: frames to corrupt ("trunc" / "head") and frames decoded beforehand
+	Corrupt    map[int]string
+	PreDecoded []int
+	ZeroFrames bool
 	img   *image.NRGBA
 	mbW   int
 	mbH   int
@@ -208,8 +213,120 @@ func (w *workload) run() (res string, err error) {
 			h.Write([]byte(digestImage(a.Frames[i].Image)))
 		}
 		return fmt.Sprintf("%d:%s", len(a.Frames), hex.EncodeToString(h.Sum(nil)[:12])), nil
+	case "animc":
+		return w.runAnimC(false), nil
 	}
 	return "", fmt.Errorf("unknown kind %s", w.Kind)
+}
+
+// corruptBitstream damages one frame's bitstream so that its decoder fails:
+// "trunc": keep the first 60% (fails late, after real decoding work);
+// "head": break the header (VP8L version bits / VP8 key-frame bit; fails at once).
+func corruptBitstream(b []byte, how string) []byte {
+	c := append([]byte(nil), b...)
+	if how == "trunc" {
+		return c[:len(c)*6/10]
+	}
+	if len(c) > 4 && c[0] == 0x2f {
+		c[4] |= 0xE0 // VP8L version != 0
+	} else if len(c) > 0 {
+		c[0] |= 1 // VP8 frame tag: not a key frame
+	}
+	return c
+}
+
+// buildAnimC returns the animation with the workload's corruptions applied and the
+// error each corrupt frame's decoder returns when called alone.
+func (w *workload) buildAnimC() (*animation.Animation, map[int]error) {
+	if w.ZeroFrames {
+		return &animation.Animation{CanvasWidth: 16, CanvasHeight: 16}, nil
+	}
+	a, err := animation.DecodeBytes(w.Input)
+	if err != nil {
+		return nil, nil
+	}
+	solo := map[int]error{}
+	for k, how := range w.Corrupt {
+		if k < len(a.Frames) {
+			a.Frames[k].BitstreamData = corruptBitstream(a.Frames[k].BitstreamData, how)
+			_, e := animation.FrameDecoderFunc(a.Frames[k].BitstreamData, a.Frames[k].AlphaData)
+			solo[k] = e
+		}
+	}
+	for _, k := range w.PreDecoded {
+		if k < len(a.Frames) {
+			if im, e := animation.FrameDecoderFunc(a.Frames[k].BitstreamData, a.Frames[k].AlphaData); e == nil {
+				a.Frames[k].Image = im
+			}
+		}
+	}
+	return a, solo
+}
+
+// runAnimC decodes with DecodeFramesParallel (or, sequential = true, DecodeFrames) and
+// returns "frames=<per frame: - or pixel digest>|err=<nil | frame<k> | other>", where k is the
+// lowest corrupt frame whose own error has the same innermost (sentinel) error as the returned one.
+func (w *workload) runAnimC(sequential bool) string {
+	a, solo := w.buildAnimC()
+	if a == nil {
+		return "build-failed"
+	}
+	var err error
+	if sequential {
+		err = a.DecodeFrames()
+	} else {
+		err = a.DecodeFramesParallel()
+	}
+	var sb strings.Builder
+	sb.WriteString("frames=")
+	for i := range a.Frames {
+		if i > 0 {
+			sb.WriteByte(',')
+		}
+		if a.Frames[i].Image == nil {
+			sb.WriteByte('-')
+		} else {
+			sb.WriteString(digestImage(a.Frames[i].Image))
+		}
+	}
+	cls := "nil"
+	if err != nil {
+		cls = "other"
+		var ks []int
+		for k := range solo {
+			ks = append(ks, k)
+		}
+		sort.Ints(ks)
+		for _, k := range ks {
+			if solo[k] != nil && rootErr(err) == rootErr(solo[k]) {
+				cls = fmt.Sprintf("frame%d", k)
+				break
+			}
+		}
+	}
+	return sb.String() + "|err=" + cls
+}
+
+// rootErr unwraps to the innermost error (the decoders wrap package-level sentinel values,
+// which are comparable by identity; no error text is compared).
+func rootErr(e error) error {
+	for {
+		u := errors.Unwrap(e)
+		if u == nil {
+			return e
+		}
+		e = u
+	}
+}
+
+// stableAnim drops which error was returned (keeps nil / non-nil): on the pinned code it
+// depends on the arrival order of the results, i.e. on the schedule.
+func stableAnim(r string) string {
+	i := strings.Index(r, "|err=")
+	if i < 0 || strings.HasSuffix(r, "|err=nil") {
+		return r
+	}
+	return r[:i] + "|err=some"
 }
 
 func digestImage(im image.Image) string {
@@ -330,6 +447,40 @@ func buildWorkloads(seed int64, tier string) []*workload {
 	if okAnim {
 		ws = append(ws, &workload{Name: fmt.Sprintf("anim/%dframes", nf), Kind: "anim", Input: abuf.Bytes(), Sites: []int{sAnimDecode}})
 	}
+	// animations with undecodable frames (work queue + error collection of DecodeFramesParallel)
+	mkAnim := func(lossless bool, nfr int) []byte {
+		var b bytes.Buffer
+		e := animation.NewEncoder(&b, 64, 48, &animation.EncodeOptions{Lossless: lossless, Quality: 70, Kmin: 1, Kmax: 1})
+		for f := 0; f < nfr; f++ {
+			if err := e.AddFrame(genImage(imgSpec{64, 48, (f + 1) % 3, false, rng.U64()}), 30*time.Millisecond); err != nil {
+				return nil
+			}
+		}
+		if err := e.Close(); err != nil {
+			return nil
+		}
+		return b.Bytes()
+	}
+	animLL, animLY := mkAnim(true, 6), mkAnim(false, 5)
+	addC := func(name string, in []byte, corrupt map[int]string, pre []int) {
+		if in == nil {
+			return
+		}
+		ws = append(ws, &workload{Name: "animc/" + name, Kind: "animc", Input: in, Sites: []int{sAnimDecode}, Corrupt: corrupt, PreDecoded: pre})
+	}
+	addC("lossless/none", animLL, nil, nil)
+	addC("lossless/first-corrupt", animLL, map[int]string{0: "trunc"}, nil)
+	addC("lossless/middle-corrupt", animLL, map[int]string{2: "head"}, nil)
+	addC("lossless/last-corrupt", animLL, map[int]string{5: "trunc"}, nil)
+	addC("lossless/two-corrupt-late-fails-first", animLL, map[int]string{1: "trunc", 4: "head"}, nil)
+	addC("lossless/two-corrupt-same-kind", animLL, map[int]string{0: "head", 3: "head"}, nil)
+	addC("lossless/all-corrupt", animLL, map[int]string{0: "trunc", 1: "head", 2: "trunc", 3: "head", 4: "trunc", 5: "head"}, nil)
+	addC("lossless/middle-corrupt-two-predecoded", animLL, map[int]string{3: "trunc"}, []int{0, 5})
+	addC("lossless/only-two-to-decode", animLL, map[int]string{4: "trunc"}, []int{0, 1, 2, 3})
+	addC("lossy/none", animLY, nil, nil)
+	addC("lossy/middle-corrupt", animLY, map[int]string{2: "trunc"}, nil)
+	addC("lossy/two-corrupt", animLY, map[int]string{1: "trunc", 3: "head"}, nil)
+	ws = append(ws, &workload{Name: "animc/zero-frames", Kind: "animc", ZeroFrames: true, Sites: []int{sAnimDecode}})
 	webp.VerifResetOverrides()
 	return ws
 }
@@ -345,6 +496,9 @@ func childMain() {
 		r, err := w.run()
 		if err != nil {
 			r = "panic"
+		}
+		if w.Kind == "animc" {
+			r = stableAnim(r)
 		}
 		fmt.Printf("%s\t%s\n", w.Name, r)
 	}
@@ -472,7 +626,16 @@ func run(c *Ctx) {
 				if n == 1 {
 					continue
 				}
-				if base, ok := ref[1]; ok && res != base {
+				if base, ok := ref[1]; ok && res != base && w.Kind == "animc" {
+					// which frames are decoded / whether an error is returned, versus WHICH error
+					key := "site=" + names[s] + "/frames-or-error-presence"
+					if stableAnim(res) == stableAnim(base) {
+						key = "site=" + names[s] + "/which-error"
+					}
+					c.Count("differs-from-n1/" + key)
+					c.Violate(key, fmt.Sprintf("DecodeFramesParallel with %d workers on an animation with undecodable frames differs from the 1-worker result", n),
+						map[string]any{"workload": w.Name, "corrupt-frames": w.Corrupt, "predecoded": w.PreDecoded, "n": n, "n1": base, "got": res})
+				} else if base, ok := ref[1]; ok && res != base {
 					key := "site=" + names[s]
 					c.Count("differs-from-n1/" + names[s])
 					c.Violate(key, fmt.Sprintf("result with %d workers at site %s differs from the 1-worker result", n, names[s]),
@@ -485,6 +648,36 @@ func run(c *Ctx) {
 					}
 				}
 			}
+		}
+	}
+
+	// ---- documented agreement DecodeFramesParallel / DecodeFrames: the doc comment promises the
+	// sequential fallback for <= 2 undecoded frames; with every frame decodable both decode
+	// all frames. (With an undecodable frame DecodeFrames stops there, the parallel version
+	// decodes all the others: not documented to agree, not compared.)
+	for _, w := range ws {
+		if w.Kind != "animc" {
+			continue
+		}
+		a, _ := w.buildAnimC()
+		if a == nil {
+			continue
+		}
+		toDecode := 0
+		for i := range a.Frames {
+			if a.Frames[i].Image == nil && a.Frames[i].BitstreamData != nil {
+				toDecode++
+			}
+		}
+		if len(w.Corrupt) == 0 || toDecode <= 2 {
+			c.D.Evaluations++
+			webp.VerifResetOverrides()
+			par, seq := w.runAnimC(false), w.runAnimC(true)
+			if par != seq {
+				c.Violate("animation.DecodeFramesParallel-vs-DecodeFrames", "DecodeFramesParallel and DecodeFrames disagree where they are documented to agree (all frames decodable, or <= 2 frames to decode)",
+					map[string]any{"workload": w.Name, "parallel": par, "sequential": seq})
+			}
+			c.Nontrivial("anim-seq-vs-par|" + w.Name)
 		}
 	}
 
@@ -526,6 +719,9 @@ func run(c *Ctx) {
 		webp.VerifResetOverrides()
 		if err != nil {
 			return "panic"
+		}
+		if w.Kind == "animc" {
+			r = stableAnim(r)
 		}
 		return r
 	}
